@@ -1,10 +1,27 @@
-//! C02 obligations: any()/all() reduction.
+//! C02 obligations: any()/all() reduction (`QuantifierOp::reduce_*`, kernel K5)
+//! and the bool-array combinators of `LogicalExpr::compile_with_compiler`
+//! (arms lifted mechanically by kani/extract_arms.py): element-wise not,
+//! element-wise and/or/xor truncating to the shortest operand, any/all over a
+//! compiled bool array, any/all of a directly given (possibly absent) array.
+//!
+//! Modularity: children are compiled by a harness `Compiler` returning constant
+//! closures (their contract: "a closure that yields this bool array"), so the
+//! real combinator code is checked against the children's contracts.
 use super::super::*;
-use crate::lhs_types::Array;
+use super::extracted;
+use crate::ast::field_expr::{ComparisonOpExpr, IdentifierExpr};
+use crate::compiler::Compiler;
+use crate::execution_context::ExecutionContext;
+use crate::filter::CompiledValueExpr;
+use crate::lhs_types::verif_kani::common::{array_borrowed, array_owned};
+use crate::lhs_types::{Array, TypedArray};
+use crate::scheme::verif_kani::common::{field, scheme_of};
+use crate::scheme::Scheme;
 
-/// any <=> some element true; all <=> every element true (all of empty = true).
-fn reduce<const N: usize>() {
-    let bs: [bool; N] = kani::any();
+// ---------------------------------------------------------------------------
+// K5: the reductions themselves (direct calls)
+
+fn reference<const N: usize>(bs: &[bool; N]) -> (bool, bool) {
     let mut some = false;
     let mut every = true;
     let mut i = 0;
@@ -13,22 +30,34 @@ fn reduce<const N: usize>() {
         every = every && bs[i];
         i += 1;
     }
-    assert!(QuantifierOp::Any.reduce_bool_iter(bs.iter().copied()) == some, "any() is true iff some element is true");
-    assert!(QuantifierOp::All.reduce_bool_iter(bs.iter().copied()) == every, "all() is true iff every element is true");
-    // the same through an Array(Bool) value (direct array argument)
+    (some, every)
+}
+
+fn bools<const N: usize>(bs: &[bool; N]) -> Vec<LhsValue<'static>> {
     let mut v = Vec::with_capacity(N);
     let mut i = 0;
     while i < N {
         v.push(LhsValue::Bool(bs[i]));
         i += 1;
     }
-    let arr = Array::try_from_vec(Type::Bool, v).unwrap();
-    assert!(QuantifierOp::Any.reduce_lhs_array(arr.as_ref()) == some);
-    assert!(QuantifierOp::All.reduce_lhs_array(arr.as_ref()) == every);
+    v
+}
+
+/// any <=> some element true; all <=> every element true (all of empty = true).
+fn reduce<const N: usize>() {
+    let bs: [bool; N] = kani::any();
+    let (some, every) = reference(&bs);
+    assert!(QuantifierOp::Any.reduce_bool_iter(bs.iter().copied()) == some, "any() is true iff some element is true");
+    assert!(QuantifierOp::All.reduce_bool_iter(bs.iter().copied()) == every, "all() is true iff every element is true");
+    // the same through an Array(Bool) value (direct array argument), borrowed view
+    let arr = array_owned(Type::Bool, bools(&bs));
+    assert!(QuantifierOp::Any.reduce_lhs_array(arr.as_ref()) == some, "any() of an array value");
+    assert!(QuantifierOp::All.reduce_lhs_array(arr.as_ref()) == every, "all() of an array value");
     std::mem::forget(arr);
     if N == 0 {
         assert!(every && !some, "all of an empty result is true, any is false");
     }
+    kani::cover!(some && !every || N < 2);
 }
 
 #[kani::proof]
@@ -47,4 +76,303 @@ fn quantifier_reduce__any_all_n1() {
 #[kani::unwind(7)]
 fn quantifier_reduce__any_all_n3() {
     reduce::<3>()
+}
+
+/// The owned representation (the value a compiled index expression hands over).
+fn reduce_owned<const N: usize>() {
+    let bs: [bool; N] = kani::any();
+    let (some, every) = reference(&bs);
+    assert!(QuantifierOp::Any.reduce_lhs_array(array_owned(Type::Bool, bools(&bs))) == some);
+    assert!(QuantifierOp::All.reduce_lhs_array(array_owned(Type::Bool, bools(&bs))) == every);
+    kani::cover!(some && !every);
+}
+
+#[kani::proof]
+#[kani::unwind(6)]
+fn quantifier_reduce__owned_array_n2() {
+    reduce_owned::<2>()
+}
+
+// ---------------------------------------------------------------------------
+// The compiled combinators, against the contract of their compiled children.
+
+/// Compiles child k to a constant closure: bool-array children yield `a`, `b`, `c`
+/// (in compile order); an index-expression child yields the array `a` or a typed absence.
+struct Canned<const L0: usize, const L1: usize, const L2: usize> {
+    next: usize,
+    a: [bool; L0],
+    b: [bool; L1],
+    c: [bool; L2],
+    present: bool,
+}
+
+fn vec_closure<const L: usize>(row: [bool; L]) -> CompiledExpr<()> {
+    CompiledExpr::Vec(CompiledVecExpr::new(move |_| TypedArray::from_iter(row)))
+}
+
+impl<const L0: usize, const L1: usize, const L2: usize> Compiler for Canned<L0, L1, L2> {
+    type U = ();
+
+    fn compile_logical_expr(&mut self, node: LogicalExpr) -> CompiledExpr<()> {
+        std::mem::forget(node);
+        let k = self.next;
+        self.next += 1;
+        match k {
+            0 => vec_closure(self.a),
+            1 => vec_closure(self.b),
+            _ => vec_closure(self.c),
+        }
+    }
+
+    fn compile_comparison_expr(&mut self, node: ComparisonExpr) -> CompiledExpr<()> {
+        std::mem::forget(node);
+        panic!("unexpected compile_comparison_expr")
+    }
+
+    fn compile_index_expr(&mut self, node: IndexExpr) -> CompiledValueExpr<()> {
+        std::mem::forget(node);
+        self.next += 1;
+        let row = self.a;
+        let present = self.present;
+        CompiledValueExpr::new(move |_| {
+            if present {
+                Ok(LhsValue::Array(array_owned(Type::Bool, bools(&row))))
+            } else {
+                Err(Type::Array(Type::Bool.into()))
+            }
+        })
+    }
+
+    // Every other entry point is overridden too (trap 5: infeasible arms are explored).
+    fn compile_expr(&mut self, node: impl crate::ast::Expr) -> CompiledExpr<()> {
+        std::mem::forget(node);
+        panic!("unexpected compile_expr")
+    }
+
+    fn compile_value_expr(&mut self, node: impl crate::ast::ValueExpr) -> CompiledValueExpr<()> {
+        std::mem::forget(node);
+        panic!("unexpected compile_value_expr")
+    }
+
+    fn compile_function_call_expr(&mut self, node: crate::ast::function_expr::FunctionCallExpr) -> CompiledValueExpr<()> {
+        std::mem::forget(node);
+        panic!("unexpected compile_function_call_expr")
+    }
+
+    fn compile_function_call_arg_expr(&mut self, node: FunctionCallArgExpr) -> CompiledValueExpr<()> {
+        std::mem::forget(node);
+        panic!("unexpected compile_function_call_arg_expr")
+    }
+}
+
+fn index_leaf(scheme: &Scheme) -> IndexExpr {
+    IndexExpr {
+        identifier: IdentifierExpr::Field(field(scheme, 0)),
+        indexes: Vec::new(),
+    }
+}
+
+fn leaf(scheme: &Scheme) -> LogicalExpr {
+    LogicalExpr::Comparison(ComparisonExpr {
+        lhs: index_leaf(scheme),
+        op: ComparisonOpExpr::IsTrue,
+    })
+}
+
+fn run_vec(e: CompiledExpr<()>, scheme: &Scheme) -> TypedArray<'static, bool> {
+    let ctx = ExecutionContext::<()>::new(scheme);
+    let r = match &e {
+        CompiledExpr::Vec(vec) => vec.execute(&ctx),
+        CompiledExpr::One(_) => panic!("a combination of bool arrays must be a bool array"),
+    };
+    std::mem::forget(e);
+    std::mem::forget(ctx);
+    r
+}
+
+fn run_one(e: CompiledExpr<()>, scheme: &Scheme) -> bool {
+    let ctx = ExecutionContext::<()>::new(scheme);
+    let r = match &e {
+        CompiledExpr::One(one) => one.execute(&ctx),
+        CompiledExpr::Vec(_) => panic!("any()/all() yields a single boolean"),
+    };
+    std::mem::forget(e);
+    std::mem::forget(ctx);
+    r
+}
+
+fn apply(op: LogicalOp, x: bool, y: bool) -> bool {
+    match op {
+        LogicalOp::And => x && y,
+        LogicalOp::Or => x || y,
+        LogicalOp::Xor => x ^ y,
+    }
+}
+
+fn min2(x: usize, y: usize) -> usize {
+    if x < y { x } else { y }
+}
+
+/// `a op b [op c]` on bool arrays of constant lengths L0, L1 [, L2]: element i of
+/// the result is a[i] op b[i] [op c[i]], the length is the shortest operand's.
+fn combining_vec<const N: usize, const L0: usize, const L1: usize, const L2: usize>(op: LogicalOp) {
+    let scheme = scheme_of(&[(Type::Bool, false)], true);
+    let a: [bool; L0] = kani::any();
+    let b: [bool; L1] = kani::any();
+    let c: [bool; L2] = kani::any();
+    let mut items = Vec::with_capacity(N);
+    let mut i = 0;
+    while i < N {
+        items.push(leaf(&scheme));
+        i += 1;
+    }
+    let mut comp = Canned { next: 0, a, b, c, present: true };
+    let compiled = extracted::arm_combining(&mut comp, op, items);
+    assert!(comp.next == N, "every operand is compiled exactly once");
+    let out = run_vec(compiled, &scheme);
+    let want_len = if N == 2 { min2(L0, L1) } else { min2(min2(L0, L1), L2) };
+    assert!(out.len() == want_len, "the result is truncated to the shortest operand");
+    let mut it = out.iter();
+    let mut i = 0;
+    while i < want_len {
+        let mut w = apply(op, a[i], b[i]);
+        if N > 2 {
+            w = apply(op, w, c[i]);
+        }
+        match it.next() {
+            Some(g) => {
+                assert!(*g == w, "and/or/xor act element-wise");
+            }
+            None => {
+                assert!(false, "the result is truncated to the shortest operand, not shorter");
+            }
+        }
+        i += 1;
+    }
+    kani::cover!(true);
+    std::mem::forget(it);
+    std::mem::forget(out);
+    std::mem::forget(scheme);
+}
+
+macro_rules! combining {
+    ($name:ident, $unwind:literal, $n:literal, $l0:literal, $l1:literal, $l2:literal, $op:expr) => {
+        #[kani::proof]
+        #[kani::unwind($unwind)]
+        fn $name() {
+            combining_vec::<$n, $l0, $l1, $l2>($op)
+        }
+    };
+}
+
+combining!(combining_vec__or_2_1, 5, 2, 2, 1, 0, LogicalOp::Or);
+combining!(combining_vec__and_2_1, 5, 2, 2, 1, 0, LogicalOp::And);
+combining!(combining_vec__xor_2_1, 5, 2, 2, 1, 0, LogicalOp::Xor);
+combining!(combining_vec__or_1_2, 5, 2, 1, 2, 0, LogicalOp::Or);
+combining!(combining_vec__and_1_2, 5, 2, 1, 2, 0, LogicalOp::And);
+combining!(combining_vec__xor_1_2, 5, 2, 1, 2, 0, LogicalOp::Xor);
+combining!(combining_vec__or_2_2_1, 5, 3, 2, 2, 1, LogicalOp::Or);
+combining!(combining_vec__and_2_2_1, 5, 3, 2, 2, 1, LogicalOp::And);
+combining!(combining_vec__xor_2_2_1, 5, 3, 2, 2, 1, LogicalOp::Xor);
+
+/// `not v` on a bool array: element-wise negation, same length.
+fn not_vec<const L: usize>() {
+    let scheme = scheme_of(&[(Type::Bool, false)], true);
+    let a: [bool; L] = kani::any();
+    let mut comp = Canned { next: 0, a, b: [false; 0], c: [false; 0], present: true };
+    let compiled = extracted::arm_unary_not(&mut comp, Box::new(leaf(&scheme)));
+    assert!(comp.next == 1);
+    let out = run_vec(compiled, &scheme);
+    assert!(out.len() == L, "not keeps the length");
+    let mut it = out.iter();
+    let mut i = 0;
+    while i < L {
+        assert!(it.next().copied() == Some(!a[i]), "not acts element-wise");
+        i += 1;
+    }
+    kani::cover!(true);
+    std::mem::forget(it);
+    std::mem::forget(out);
+    std::mem::forget(scheme);
+}
+
+#[kani::proof]
+#[kani::unwind(5)]
+fn unary_not_vec__elementwise_n2() {
+    not_vec::<2>()
+}
+
+#[kani::proof]
+#[kani::unwind(4)]
+fn unary_not_vec__elementwise_n0() {
+    not_vec::<0>()
+}
+
+/// any(e) / all(e) where e compiles to a bool array of length L.
+fn quantifier_logical<const L: usize>() {
+    let scheme = scheme_of(&[(Type::Bool, false)], true);
+    let a: [bool; L] = kani::any();
+    let (some, every) = reference(&a);
+    let is_any: bool = kani::any();
+    let op = if is_any { QuantifierOp::Any } else { QuantifierOp::All };
+    let mut comp = Canned { next: 0, a, b: [false; 0], c: [false; 0], present: true };
+    let arg = Box::new(QuantifierArgExpr::Logical(leaf(&scheme)));
+    let compiled = extracted::arm_quantifier(&mut comp, op, arg);
+    assert!(comp.next == 1);
+    let got = run_one(compiled, &scheme);
+    assert!(got == if is_any { some } else { every }, "any: some element true; all: every element true (all of an empty result is true)");
+    kani::cover!(is_any && got);
+    kani::cover!(!is_any && got);
+    std::mem::forget(scheme);
+}
+
+#[kani::proof]
+#[kani::unwind(5)]
+fn quantifier_logical__any_all_n2() {
+    quantifier_logical::<2>()
+}
+
+#[kani::proof]
+#[kani::unwind(4)]
+fn quantifier_logical__any_all_n0() {
+    quantifier_logical::<0>()
+}
+
+/// any(x) / all(x) where x is an Array(Bool) VALUE: present => the reduction of its
+/// elements; absent => false for both any and all.
+fn quantifier_direct<const L: usize>() {
+    let scheme = scheme_of(&[(Type::Array(Type::Bool.into()), false)], true);
+    let a: [bool; L] = kani::any();
+    let (some, every) = reference(&a);
+    let is_any: bool = kani::any();
+    let present: bool = kani::any();
+    let op = if is_any { QuantifierOp::Any } else { QuantifierOp::All };
+    let mut comp = Canned { next: 0, a, b: [false; 0], c: [false; 0], present };
+    let arg = Box::new(QuantifierArgExpr::IndexExpr(index_leaf(&scheme)));
+    let compiled = extracted::arm_quantifier(&mut comp, op, arg);
+    assert!(comp.next == 1);
+    let got = run_one(compiled, &scheme);
+    let want = if !present {
+        false
+    } else if is_any {
+        some
+    } else {
+        every
+    };
+    assert!(got == want, "any/all of an array value; applied to an absent value both are false");
+    kani::cover!(!present && !is_any, "all() of an absent array");
+    kani::cover!(present && !is_any && got);
+    std::mem::forget(scheme);
+}
+
+#[kani::proof]
+#[kani::unwind(5)]
+fn quantifier_direct__present_or_absent_n2() {
+    quantifier_direct::<2>()
+}
+
+#[kani::proof]
+#[kani::unwind(4)]
+fn quantifier_direct__present_or_absent_n0() {
+    quantifier_direct::<0>()
 }
